@@ -254,3 +254,23 @@ package standard
 // ---- listing ----
 //@ func (*Service).OnListAccounts
 //@ ensures [always] result == rules.APPROVED
+
+// ---- slashing-protection import (C10, C11) ----
+//@ func (*Service).ImportSlashingProtection
+//@ reveal rowPropOk rowPropL rowAttOk rowAttS rowAttT
+//@ requires s != nil && s.store != nil
+//@ requires [nonnil] forall k [48]byte :: k in protection ==> protection[k] != nil
+//@ modifies db
+//@ ensures [props] result == nil ==> (forall k [48]byte :: k in protection ==> wmPropL(bytes(k)) == (if protection[k].HighestProposedSlot != 0 - 1 then protection[k].HighestProposedSlot else old(wmPropL(bytes(k)))))
+//@ ensures [atts] result == nil ==> (forall k [48]byte :: k in protection ==> wmAttS(bytes(k)) == (if protection[k].HighestAttestedSourceEpoch != 0 - 1 then protection[k].HighestAttestedSourceEpoch else old(wmAttS(bytes(k)))) && wmAttT(bytes(k)) == (if protection[k].HighestAttestedSourceEpoch != 0 - 1 then protection[k].HighestAttestedTargetEpoch else old(wmAttT(bytes(k)))))
+//@ ensures [others] forall k [48]byte :: !(k in protection) ==> wmPropL(bytes(k)) == old(wmPropL(bytes(k))) && wmAttS(bytes(k)) == old(wmAttS(bytes(k))) && wmAttT(bytes(k)) == old(wmAttT(bytes(k)))
+//@ loop #1
+//@ invariant [props] forall k [48]byte :: visited()[k] ==> wmPropL(bytes(k)) == (if protection[k].HighestProposedSlot != 0 - 1 then protection[k].HighestProposedSlot else old(wmPropL(bytes(k))))
+//@ invariant [atts] forall k [48]byte :: visited()[k] ==> wmAttS(bytes(k)) == (if protection[k].HighestAttestedSourceEpoch != 0 - 1 then protection[k].HighestAttestedSourceEpoch else old(wmAttS(bytes(k)))) && wmAttT(bytes(k)) == (if protection[k].HighestAttestedSourceEpoch != 0 - 1 then protection[k].HighestAttestedTargetEpoch else old(wmAttT(bytes(k))))
+//@ invariant [rest] forall k [48]byte :: !visited()[k] ==> wmPropL(bytes(k)) == old(wmPropL(bytes(k))) && wmAttS(bytes(k)) == old(wmAttS(bytes(k))) && wmAttT(bytes(k)) == old(wmAttT(bytes(k)))
+//@ invariant [sub] forall k [48]byte :: visited()[k] ==> k in protection
+//@ hint-after before:Store@1 [pkey] bytes(key) == propKey(bytes(k))
+//@ hint-after before:Store@2 [akey] bytes(key) == attKey(bytes(k))
+//@ hint [inj-prop] forall a Bytes, b Bytes :: bnorm(a) && bnorm(b) && propKey(a) == propKey(b) ==> a == b
+//@ hint [inj-att] forall a Bytes, b Bytes :: bnorm(a) && bnorm(b) && attKey(a) == attKey(b) ==> a == b
+//@ hint [tags] forall a Bytes, b Bytes :: propKey(a) != attKey(b)
